@@ -95,6 +95,29 @@ func genSysHistory(rng *proto.Rng) sysIn {
 			in.Pre = addObj(in.Pre, o)
 		}
 	}
+	if rng.Chance(1, 12) {
+		// the history starts with a stored inventory: one or two live objects of the catalogue it owns, and for each a namesake of
+		// the same kind in an API group that is not registered (any more)
+		for k := 1 + rng.Intn(2); k > 0; k-- {
+			o := proto.Pick(rng, []sysObj{soA, soD, soS, soK, soE})
+			o.Owner = sysInvID
+			o.Deps = nil
+			already := false
+			for _, x := range in.Pre {
+				already = already || x.ID == o.ID
+			}
+			if already {
+				continue
+			}
+			in.Pre = append(in.Pre, o)
+			twin := jid{o.ID[0], o.ID[1], proto.Pick(rng, []string{"example.com", "x.io"}), o.ID[3]}
+			if rng.Bool() {
+				in.PreInv = append(in.PreInv, twin, o.ID)
+			} else {
+				in.PreInv = append(in.PreInv, o.ID, twin)
+			}
+		}
+	}
 	nRuns := 1 + rng.Intn(3)
 	for r := 0; r < nRuns; r++ {
 		run := sysRun{Kind: "apply", Objs: []sysObj{}, Ctrl: map[string]string{}, Del: map[string]string{}}
@@ -327,6 +350,17 @@ func sysHandWritten() []sysIn {
 		// no REST client for Secrets in one run: they fail at apply time, everything else goes on; the next run applies them
 		{Pre: pre, Runs: []sysRun{{Kind: "apply", Objs: []sysObj{soA, soK, soS}, FailInfo: []string{"Secret"}}, {Kind: "apply", Objs: []sysObj{soA, soK, soS}},
 			{Kind: "apply", Objs: []sysObj{soA, soB}, FailInfo: []string{"ConfigMap"}, Opts: sysOpts{Timeout: true}}, {Kind: "destroy", FailInfo: []string{"ConfigMap"}}}},
+		// the stored inventory tracks ids of a type that is not registered any more (its CRD is gone), next to same-named objects of
+		// a registered type: the unregistered ones are skipped silently, everything else is pruned / deleted as usual
+		{Pre: append([]sysObj{{ID: soS.ID, Owner: sysInvID}, {ID: soA.ID, Owner: sysInvID}, {ID: soK.ID, Owner: sysInvID}}, pre...),
+			PreInv: []jid{{"ns1", "s", "example.com", "Secret"}, soS.ID, soA.ID, {"ns1", "a", "example.com", "ConfigMap"}, soK.ID, {"ns1", "foo", "example.com", "Foo"}},
+			Runs:   []sysRun{{Kind: "apply", Objs: []sysObj{soA}}, {Kind: "destroy"}}},
+		{Pre: append([]sysObj{{ID: soS.ID, Owner: sysInvID}, {ID: soD.ID, Owner: sysInvID}}, pre...),
+			PreInv: []jid{soS.ID, {"ns1", "s", "example.com", "Secret"}, {"ns2", "d", "x.io", "ConfigMap"}, soD.ID},
+			Runs:   []sysRun{{Kind: "destroy", Opts: sysOpts{StatusAll: true}}}},
+		{Pre: append([]sysObj{{ID: soS.ID, Owner: sysInvID}, {ID: soD.ID, Owner: sysInvID}}, pre...),
+			PreInv: []jid{{"ns2", "d", "x.io", "ConfigMap"}, {"ns1", "s", "example.com", "Secret"}, soD.ID, soS.ID},
+			Runs:   []sysRun{{Kind: "apply", Objs: []sysObj{}}, {Kind: "apply", Objs: []sysObj{soD}}}},
 		// ids the inventory cannot store
 		{Pre: pre, Runs: []sysRun{{Kind: "apply", Objs: []sysObj{soA, {ID: jid{"ns1", "a_b", "", "ConfigMap"}}}}, {Kind: "apply", Objs: []sysObj{soA}},
 			{Kind: "apply", Objs: []sysObj{soA, {ID: jid{"", "x__y", "rbac.authorization.k8s.io", "ClusterRole"}}}, Opts: sysOpts{StatusAll: true}}, {Kind: "destroy"}}},
